@@ -179,10 +179,13 @@ class Route(Generic[Interface]):
         match = self.re_pattern.fullmatch(path)
         if match is None:
             return False, {}
-        return True, {
-            name: self.path_convertors[name].to_python(value)
-            for name, value in match.groupdict().items()
-        }
+        try:
+            return True, {
+                name: self.path_convertors[name].to_python(value)
+                for name, value in match.groupdict().items()
+            }
+        except ValueError:  # e.g. "2021-13-45", or more digits than int() accepts
+            return False, {}
 
 
 @mypyc_attr(allow_interpreted_subclasses=True)
